@@ -102,7 +102,8 @@ func init() {
 		m["nd:ndString"] = atom(16)
 		m["nd:ndBech32"] = atom(45)
 		m["nd:ndHexVal"] = func(ex *Exec, fr *frame, cc *ssa.CallCommon, a []Value) Value {
-			t := ex.ndInt(symName(a[0]), big.NewInt(0), nil)
+			// id = 2*value + spelling bit; value < 16^62 (the 64-digit rendering starts with a zero)
+			t := ex.ndInt(symName(a[0]), big.NewInt(0), new(big.Int).Lsh(big.NewInt(1), 249))
 			return VStr{Atom: &t, HexNum: true}
 		}
 		m["nd:ndBytesN"] = func(ex *Exec, fr *frame, cc *ssa.CallCommon, a []Value) Value {
